@@ -14,16 +14,16 @@ type BaseClient struct{}
 
 var _ couchbase.Client = (*BaseClient)(nil)
 
-func (*BaseClient) Ping() (*models.PingResult, error)       { panic("fake: Ping not scripted") }
-func (*BaseClient) GetAgent() *gocbcore.Agent               { panic("fake: GetAgent not scripted") }
-func (*BaseClient) GetMetaAgent() *gocbcore.Agent           { panic("fake: GetMetaAgent not scripted") }
-func (*BaseClient) Connect() error                          { return nil }
-func (*BaseClient) Close()                                  {}
-func (*BaseClient) DcpConnect(bool, bool) error             { return nil }
-func (*BaseClient) DcpClose()                               {}
-func (*BaseClient) GetNumVBuckets() int                     { panic("fake: GetNumVBuckets not scripted") }
-func (*BaseClient) CloseStream(uint16) error                { panic("fake: CloseStream not scripted") }
-func (*BaseClient) GetAgentQueues() []*models.AgentQueue    { return nil }
+func (*BaseClient) Ping() (*models.PingResult, error)    { panic("fake: Ping not scripted") }
+func (*BaseClient) GetAgent() *gocbcore.Agent            { panic("fake: GetAgent not scripted") }
+func (*BaseClient) GetMetaAgent() *gocbcore.Agent        { panic("fake: GetMetaAgent not scripted") }
+func (*BaseClient) Connect() error                       { return nil }
+func (*BaseClient) Close()                               {}
+func (*BaseClient) DcpConnect(bool, bool) error          { return nil }
+func (*BaseClient) DcpClose()                            {}
+func (*BaseClient) GetNumVBuckets() int                  { panic("fake: GetNumVBuckets not scripted") }
+func (*BaseClient) CloseStream(uint16) error             { panic("fake: CloseStream not scripted") }
+func (*BaseClient) GetAgentQueues() []*models.AgentQueue { return nil }
 func (*BaseClient) GetVBucketSeqNos(bool) (*wrapper.ConcurrentSwissMap[uint16, uint64], error) {
 	panic("fake: GetVBucketSeqNos not scripted")
 }
